@@ -130,6 +130,9 @@ fn run<T: Sc>(case: &C12Case) -> Check {
     });
     out.class(if fam.f32 { "f32" } else { "f64" });
     out.class(if fam.w.is_some() { "weighted" } else { "unweighted" });
+    for r in fam.regime() {
+        out.class(r);
+    }
     out.class(format!("profile:{}", if cfg!(debug_assertions) { "overflow-checked" } else { "release" }));
     let _: Option<&dyn Prob<T>> = None;
     Ok(out)
@@ -150,13 +153,13 @@ impl Property for C12 {
         }
     }
     fn strategy(&self, _tier: Tier) -> BoxedStrategy<C12Case> {
-        let cfg = FamCfg { max_s: 1, min_n: 4, max_n: 40, noise_lo: 1e-4, noise_hi: 1e-1, noiseless_16: 2, start_rel: 0.03, allow_f32: true, weights: true, calibrated_weights: false, extra_families: true, wide_weights: true, max_decays: 3 };
+        let cfg = FamCfg { max_s: 1, min_n: 4, max_n: 40, noise_lo: 1e-4, noise_hi: 1e-1, noiseless_16: 2, start_rel: 0.03, allow_f32: true, weights: true, calibrated_weights: false, extra_families: true, wide_weights: true, max_decays: 3, units: true, long_data: true };
         (family_strategy(cfg), any::<u16>(), any::<u16>())
             .prop_map(|(mut fam, nsel, fl)| {
                 // choose N relative to M+P: small differences over-sampled
                 let mp = fam.spec.m() + fam.spec.p;
-                let deltas: [i64; 12] = [-3, -2, -1, -1, 0, 0, 1, 1, 2, 3, 8, 25];
-                let n = (mp as i64 + deltas[crate::engine::pick(nsel, 12)]).max(1) as usize;
+                let deltas: [i64; 13] = [-3, -2, -1, -1, 0, 0, 1, 1, 2, 3, 8, 25, 1200];
+                let n = (mp as i64 + deltas[crate::engine::pick(nsel, 13)]).max(1) as usize;
                 let xmax = fam.x.last().copied().unwrap_or(1.0);
                 let quad = fam.family == 1;
                 fam.x = (0..n).map(|i| if n == 1 { 0.3 * xmax } else { let t = i as f64 / (n - 1) as f64; xmax * if quad { t * t } else { t } }).collect();
@@ -172,6 +175,9 @@ impl Property for C12 {
                 C12Case { fam, stats_faults: fl % 4 == 0 }
             })
             .boxed()
+    }
+    fn pool_of(&self, case: &Self::Case) -> Option<usize> {
+        case.fam.pool_size()
     }
     fn check(&self, case: &C12Case) -> Check {
         if case.fam.f32 {
